@@ -793,7 +793,7 @@ def run_impl(exe, cases, env, jobs):
         for j in range(len(part)):
             out[k + j * jobs] = r[j] if j < len(r) else '<not-run>'
         extra += r[len(part):]
-    return out, extra
+    return out, extra, jobs
 
 
 def classify(case, a):
@@ -848,7 +848,7 @@ def run(ctx):
     env['ASAN_OPTIONS'] = 'detect_leaks=0:abort_on_error=0:allocator_may_return_null=1'
     env['UBSAN_OPTIONS'] = 'print_stacktrace=1'
     t0 = time.time()
-    out_i, extra = run_impl(exe, cases, env, jobs=ctx.scale(8, 10))
+    out_i, extra, njobs = run_impl(exe, cases, env, jobs=ctx.scale(8, 10))
     t1 = time.time()
     out_m = None
     if mexe:
@@ -874,13 +874,19 @@ def run(ctx):
         r = oracle(c, a)
         ca = canon_impl(c, a)
         if r:
-            ctx.fail(r[0], r[1] + '\n  case: %s\n  impl: %s' % (c[:400], ca[:300]), c)
+            rep = c
+            if a.startswith('<crash') and i >= njobs:
+                # an exception thrown late by the previous connection of the same harness process is blamed on this case:
+                # replay both, in order
+                rep = cases[i - njobs] + '\n' + c
+            ctx.fail(r[0], r[1] + '\n  case: %s\n  impl: %s' % (c[:400], ca[:300]), rep)
         if out_m is not None:
             cm = canon_model(c, out_m[i])
             if r is not None:
                 nskip += 1   # the oracle already reports this case (violation or known finding): nothing to compare
-            elif ' s:' in c or (has_reset(c) and out_m[i].count('OK:') > 1):
-                nskip += 1   # unsynchronised send / reset racing with the reply of an earlier kept-alive request: oracle only
+            elif ' s:' in c or (has_reset(c) and 'OK:' in out_m[i]):
+                nskip += 1   # unsynchronised send / reset racing with request processing (whether a complete request is still
+                             # served after the peer reset the connection is timing dependent): oracle only
             elif 'UNSAFE' in out_m[i] or 'UNMODELLED' in out_m[i]:
                 nskip += 1
                 km = 'model:' + ('unsafe' if 'UNSAFE' in out_m[i] else 'unmodelled')
